@@ -83,6 +83,9 @@ type inliner struct {
 	tailOnly  map[*ast.CallExpr]bool // callee has several returns: expandable only as the operand of a return
 	asTail    bool
 	litDone   map[*ast.FuncLit]bool
+	litFuncs  map[*ast.FuncLit]*types.Func
+	curLHS    []ast.Expr // left-hand side of the assignment whose call is being expanded
+	curTok    token.Token
 }
 
 // normalisePackage rewrites the bodies of p's function declarations in place (once per loaded package).
@@ -240,7 +243,31 @@ func (in *inliner) inlinable(call *ast.CallExpr, within *types.Func) (*ast.FuncD
 	}
 	f := callee(in.info, call)
 	if f == nil {
-		return nil, nil
+		// an immediately invoked function literal (typically a literal argument that replaced a function parameter)
+		lit, isLit := unparen(call.Fun).(*ast.FuncLit)
+		if !isLit {
+			return nil, nil
+		}
+		if in.litFuncs == nil {
+			in.litFuncs = map[*ast.FuncLit]*types.Func{}
+		}
+		lf := in.litFuncs[lit]
+		if lf == nil {
+			sig, isSig := in.info.TypeOf(lit).(*types.Signature)
+			if !isSig {
+				return nil, nil
+			}
+			if !in.litDone[lit] {
+				in.litDone[lit] = true
+				lit.Body = in.block(lit.Body, within)
+			}
+			lf = types.NewFunc(lit.Pos(), in.p.Types, "func·lit", sig)
+			in.litFuncs[lit] = lf
+			in.decls[lf] = &ast.FuncDecl{Name: &ast.Ident{Name: "func·lit", NamePos: lit.Pos()}, Type: lit.Type, Body: lit.Body}
+			in.fresh[lf] = true
+			in.state[lf] = 2
+		}
+		f = lf
 	}
 	f = f.Origin()
 	if !in.fresh[f] || f == within {
@@ -449,8 +476,44 @@ func (in *inliner) expand(call *ast.CallExpr, fd *ast.FuncDecl, f *types.Func, e
 			return nil, nil, false
 		}
 	}
-	cp := &copier{info: in.info, subst: subst}
+	cp := &copier{info: in.info, subst: subst, rename: map[types.Object]types.Object{}}
 	body := fd.Body.List
+	// x := h(…) where h returns one of its own locals: that local simply is x from its first definition on (no copy is left
+	// behind that would hide how x is built up)
+	renamed := map[int]bool{}
+	if !tail && in.curTok == token.DEFINE && len(body) > 0 {
+		if r, isRet := body[len(body)-1].(*ast.ReturnStmt); isRet && len(r.Results) == len(in.curLHS) {
+			params := map[types.Object]bool{}
+			if rv := sig.Recv(); rv != nil {
+				params[rv] = true
+			}
+			for i := 0; i < sig.Params().Len(); i++ {
+				params[sig.Params().At(i)] = true
+			}
+			for i := 0; i < sig.Results().Len(); i++ {
+				params[sig.Results().At(i)] = true
+			}
+			for i, res := range r.Results {
+				lid, isID := in.curLHS[i].(*ast.Ident)
+				if !isID || lid.Name == "_" || in.info.Defs[lid] == nil {
+					continue
+				}
+				rid, isRID := unparen(res).(*ast.Ident)
+				if !isRID {
+					continue
+				}
+				o := in.info.Uses[rid]
+				if v, isV := o.(*types.Var); !isV || params[o] || v.IsField() || !definedIn(in.info, fd.Body, o) || inClosure[o] {
+					continue
+				}
+				if _, dup := cp.rename[o]; dup {
+					continue
+				}
+				cp.rename[o] = in.info.Defs[lid]
+				renamed[i] = true
+			}
+		}
+	}
 	if tail {
 		// the call is the operand of a return: the callee's returns are the caller's, the body is spliced as it is
 		for _, s := range body {
@@ -483,7 +546,11 @@ func (in *inliner) expand(call *ast.CallExpr, fd *ast.FuncDecl, f *types.Func, e
 				results = append(results, id)
 			}
 		} else {
-			for _, r := range ret.Results {
+			for i, r := range ret.Results {
+				if renamed[i] {
+					results = append(results, nil)
+					continue
+				}
 				results = append(results, cp.node(r).(ast.Expr))
 			}
 		}
@@ -505,6 +572,19 @@ func (in *inliner) block(b *ast.BlockStmt, within *types.Func) *ast.BlockStmt {
 }
 
 func (in *inliner) stmts(list []ast.Stmt, within *types.Func) ([]ast.Stmt, bool) {
+	out, changed := in.stmtsOnce(list, within)
+	// an expansion can open new ones (a literal argument that replaced a function parameter is now called directly)
+	for round := 0; changed && round < 3; round++ {
+		again, ch := in.stmtsOnce(out, within)
+		if !ch {
+			break
+		}
+		out = again
+	}
+	return out, changed
+}
+
+func (in *inliner) stmtsOnce(list []ast.Stmt, within *types.Func) ([]ast.Stmt, bool) {
 	var out []ast.Stmt
 	changed := false
 	for i := 0; i < len(list); i++ {
@@ -573,9 +653,24 @@ func (in *inliner) stmt(s ast.Stmt, within *types.Func) ([]ast.Stmt, bool) {
 						}
 						return []ast.Stmt{s}, false
 					}
-					if pre, res, ok := in.expand(call, fd, f, false); ok && len(res) == len(x.Lhs) {
+					in.curLHS, in.curTok = x.Lhs, x.Tok
+					pre, res, ok := in.expand(call, fd, f, false)
+					in.curLHS, in.curTok = nil, token.ILLEGAL
+					if ok && len(res) == len(x.Lhs) {
 						cp := *x
-						cp.Rhs = res
+						cp.Lhs, cp.Rhs = nil, nil
+						for i, r := range res {
+							if r != nil {
+								cp.Lhs = append(cp.Lhs, x.Lhs[i])
+								cp.Rhs = append(cp.Rhs, r)
+							}
+						}
+						if len(cp.Lhs) == 0 {
+							if len(pre) == 0 {
+								pre = append(pre, &ast.EmptyStmt{Semicolon: s.Pos(), Implicit: true})
+							}
+							return pre, true
+						}
 						return append(pre, &cp), true
 					}
 				}
@@ -846,6 +941,7 @@ type copier struct {
 	onCall   func(*ast.CallExpr) ast.Expr
 	onReturn func(*ast.ReturnStmt) ast.Stmt // replaces return statements (not inside function literals)
 	inLit    int
+	rename   map[types.Object]types.Object // callee local → the caller's variable it becomes
 }
 
 var astNodeType = reflect.TypeOf((*ast.Node)(nil)).Elem()
@@ -962,9 +1058,17 @@ func (cp *copier) node(n ast.Node) ast.Node {
 func (cp *copier) ident(id *ast.Ident) *ast.Ident {
 	nid := *id
 	if o := cp.info.Uses[id]; o != nil {
+		if r, has := cp.rename[o]; has {
+			o = r
+			nid.Name = r.Name()
+		}
 		cp.info.Uses[&nid] = o
 	}
 	if o, has := cp.info.Defs[id]; has {
+		if r, ren := cp.rename[o]; ren && o != nil {
+			o = r
+			nid.Name = r.Name()
+		}
 		cp.info.Defs[&nid] = o
 	}
 	if tv, has := cp.info.Types[id]; has {
